@@ -24,6 +24,12 @@ def ctor(label, path, cached=False):
         return ar.dir_archive(path + '.d', cached=cached, protocol='json')
     if label == 'dir-source':
         return ar.dir_archive(path + '.d', cached=cached, serialized=False)
+    if label == 'dir-compressed':
+        return ar.dir_archive(path + '.d', cached=cached, compression=3)
+    if label == 'dir-memmap':
+        return ar.dir_archive(path + '.d', cached=cached, memmode='r')
+    if label == 'file-pickle-p2':
+        return ar.file_archive(path + '.pkl', cached=cached, protocol=2)
     if label == 'sql':
         return ar.sqltable_archive('sqlite:///%s.db?table=memo' % path, cached=cached)
     raise ValueError(label)
@@ -234,6 +240,28 @@ def perform(label, path, action):
         a = ctor(label, path, cached=True)
         a.load()
         return enc_items(dict(a.items()))
+    if kind == 'read-dill':                 # contents with their Python types, for the parent to unpickle
+        import dill
+        a = ctor(label, path, **({'cached': True} if action[1:] == ['cached'] else {}))
+        if action[1:] == ['cached']:
+            a.load()
+        return dill.dumps(dict(a.items())).hex()
+    if kind == 'refunc':                    # a decorated function re-created on the archive
+        import klepto
+        import klepto.keymaps as km
+        algo, kmname, xs, use_load = action[1:5]
+        calls = []
+
+        def fn(x):
+            calls.append(x)
+            return x * x + 1
+        keymap = {'default': None, 'hash': km.hashmap(flat=True), 'string': km.stringmap(flat=True), 'pickle': km.picklemap(flat=True)}[kmname]
+        kw = {} if algo in ('inf_cache', 'no_cache') else {'maxsize': 50}
+        g = getattr(klepto, algo)(cache=ctor(label, path, cached=True), keymap=keymap, **kw)(fn)
+        if use_load:
+            g.load()
+        res = [g(dec(x)) for x in xs]
+        return {'results': res, 'evaluated': len(calls), 'info': list(g.info())}
     if kind == 'len':
         return len(ctor(label, path))
     if kind == 'keys':
